@@ -70,9 +70,15 @@ func CheckC18(tier string, seed uint64, rep *core.Reporter) (*core.Evidence, err
 		return nil, err
 	}
 	report(rep, ctl)
-	detHash, err := w.DeterminismProbe(w.Runsim, "c18", seed, 700, nil)
-	if err != nil {
-		return nil, err
+	// Shared mutable state makes results depend on what ran earlier in the
+	// same process: once a violation is established the probe is skipped
+	// instead of turning it into exit status 2.
+	detHash := "skipped: violations found"
+	if len(ctl.Violations) == 0 {
+		detHash, err = w.DeterminismProbe(w.Runsim, "c18", seed, 700, nil)
+		if err != nil {
+			return nil, err
+		}
 	}
 	free, err := w.RunShards(w.RunsimRace, "c18", seed^0x5eed, freeRuns, 4, []string{"-free"},
 		[]string{"GORACE=halt_on_error=0 exitcode=0", "GOMAXPROCS=16"}, 60*time.Minute)
